@@ -46,6 +46,7 @@ PROFILES = {
     "redirorder": dict(directed=True),
     "redirmany": dict(directed=True),
     "partialloss": dict(directed=True, conns=2),
+    "hssplit": dict(directed=True, password="pw", replicas=1),
     "ripen": dict(directed=True, timeout=True, real_timeout_ms=600),
     "leftover": dict(directed=True),
     "redirexpire": dict(directed=True, timeout=True),
@@ -63,6 +64,9 @@ def cfg_for(profile):
         cfg["timeoutMs"] = p.get("real_timeout_ms", 3600000)
     if p.get("conns"):
         cfg["conns"] = p["conns"]
+    if p.get("password"):
+        cfg["password"] = p["password"]
+        cfg["replicas"] = p.get("replicas", 0)
     return cfg
 
 
@@ -355,6 +359,33 @@ def gen_partialloss(rng, sid):
     return {"id": sid, "steps": steps}
 
 
+def gen_hssplit(rng, sid):
+    """Directed, backend password and one replica per master: the two acknowledgements of a new replica connection's
+    handshake (AUTH, READONLY) reach the proxy in separate reads, and the first replies after them are errors or values."""
+    rep = {"A": "r1", "B": "r2", "C": "r3"}
+    home = {"A": "n1", "B": "n2", "C": "n3"}
+    sl = rng.choice("ABC")
+    other = rng.choice([x for x in "ABC" if x != sl])
+    first = [{"k": "get", "slots": [sl], "args": []}] + ([{"k": "mget", "slots": [sl, sl], "args": []}] if rng.random() < 0.4 else [])
+    k1 = rng.choice(["err", "ok", "nil", "err"])
+    steps = [{"stim": [{"op": "hshold", "count": 1}], "noIter": True},
+             {"stim": [{"op": "send", "c": "c1", "reqs": first}]}, {"stim": []}, {"stim": []},
+             {"stim": [{"op": "hsrelease", "n": rep[sl]}]}, {"stim": []},
+             {"stim": [{"op": "send", "c": "c2", "reqs": [{"k": "get", "slots": [sl], "args": []}, {"k": "set", "slots": [other], "args": []}]}]}, {"stim": []},
+             {"stim": [{"op": "answer", "n": rep[sl], "kind": k1, "cls": "LOADING"}]}, {"stim": []},
+             {"stim": [{"op": "hshold", "count": 0}], "noIter": True},
+             {"stim": [{"op": "hsrelease", "n": n} for n in ("r1", "r2", "r3")]}, {"stim": [], "settle": True}]
+    for rnd in range(3):
+        steps.append({"stim": [{"op": "answer", "n": n, "kind": "ok"} for n in ("r1", "r2", "r3", "n1", "n2", "n3") for _ in range(3)], "settle": True})
+    for st in steps:
+        st.setdefault("settle", False)
+        st.setdefault("noIter", False)
+        for x in st["stim"]:
+            for k, v in (("c", ""), ("n", ""), ("reqs", []), ("hex", ""), ("kind", ""), ("cls", ""), ("to", ""), ("count", 0), ("src", ""), ("text", "")):
+                x.setdefault(k, v)
+    return {"id": sid, "steps": steps}
+
+
 def gen_redirmany(rng, sid):
     """Directed: a multi-key request over many slots (17-28 distinct ones, all owned by one node) every fragment of which
     is redirected once to another node."""
@@ -377,7 +408,7 @@ def gen_redirmany(rng, sid):
     return {"id": sid, "steps": steps}
 
 
-DIRECTED = {"partialloss": gen_partialloss, "ripen": gen_ripen, "redirmany": gen_redirmany, "redirorder": gen_redirorder, "redirexpire": gen_redirexpire, "leftover": gen_leftover}
+DIRECTED = {"hssplit": gen_hssplit, "partialloss": gen_partialloss, "ripen": gen_ripen, "redirmany": gen_redirmany, "redirorder": gen_redirorder, "redirexpire": gen_redirexpire, "leftover": gen_leftover}
 
 
 def gen_many(seed, profile, n):
@@ -541,6 +572,23 @@ def gen_seg_reuse(seed, npipes, tags):
                      {"stim": [{"op": "open", "c": "c2"}]}, {"stim": []},
                      {"stim": [{"op": "send", "c": "c2", "reqs": [r2], "cuts": cuts}]}, {"stim": [], "settle": True}] + drain_steps(2, 6)
             out.append(_norm({"id": "segreuse-%s-%d-%d" % (seed, p, v), "role": "base" if v == 0 else "seg", "steps": json.loads(json.dumps(steps))}))
+    return out
+
+
+def gen_seg_limit(seed, npipes, limit):
+    """Segmentation next to the size limit: requests a little below the configured limit (and, as a control, a little above)
+    whole and cut in two or three; being cut must not change whether a request is served."""
+    rng = random.Random("seglimit/%s" % seed)
+    out = []
+    for p in range(npipes):
+        n = rng.randint(limit - 95, limit - 42)       # (the value; the whole request is about 40 bytes longer)
+        if p % 5 == 4:
+            n = limit + rng.randint(0, 40)
+        reqs = [{"k": "cmd", "slots": [rng.choice(["A", "B", "C"])], "args": ["SET", "@0", "#%d" % n], "dups": [-1]},
+                {"k": "get", "slots": [rng.choice(["A", "B"])], "dups": [-1]}]
+        for v, cuts in enumerate([[], [limit - 80], [limit - 30], [30], [60, limit - 50], [limit // 2]]):
+            steps = [{"stim": [{"op": "send", "c": "c1", "reqs": reqs, "cuts": cuts}]}, {"stim": [], "settle": True}] + drain_steps(2, 4)
+            out.append(_norm({"id": "seglimit-%s-%d-%d" % (seed, p, v), "role": "base" if v == 0 else "seg", "steps": json.loads(json.dumps(steps))}))
     return out
 
 
